@@ -366,6 +366,8 @@ def scratch_base():
     return None
 
 
+DEFAULT_LAYOUT = {'root': 'real', 'apps': 'real', 'rules': 'real',
+                  'endpoints': 'real', 'vips': 'real', 'svc': 'real'}
 DEFAULT_CFG = {'mgr': 'cfg', 'cidr': '10.10.0.0/29', 'cidr2': None,
                'svc_cidr': None}
 
@@ -389,19 +391,37 @@ class Engine(object):
         self.cfg = dict(DEFAULT_CFG)
         self.cfg.update(cfg or {})
 
-        self.root = os.path.realpath(
+        # Directory layout of the node (drawn in the case): the root and each
+        # directory handed to a manager is a plain directory, a symlink to
+        # a relocated directory, or sits below a symlinked parent.  The
+        # managers always get the path an installation would configure (the
+        # unresolved one).
+        layout = dict(DEFAULT_LAYOUT)
+        layout.update(self.cfg.get('layout') or {})
+        self.layout = layout
+        self.top = os.path.realpath(
             tempfile.mkdtemp(prefix='c14-', dir=scratch_base()))
-        self.apps = os.path.join(self.root, 'apps')
+        if layout['root'] == 'link':
+            os.mkdir(os.path.join(self.top, 'real-node'))
+            os.symlink('real-node', os.path.join(self.top, 'node'))
+        else:
+            os.mkdir(os.path.join(self.top, 'node'))
+        self.root = os.path.join(self.top, 'node')
+        self._rp_cache = {}
+        self.apps = self._place('apps', layout['apps'])
         self.dirs = {
-            'vip': os.path.join(self.root, 'vips'),
-            'rule': os.path.join(self.root, 'rules'),
-            'ep': os.path.join(self.root, 'endpoints'),
-            'svc': os.path.join(self.root, 'svc', 'vips'),
+            'vip': self._place('vips', layout['vips'], create=False),
+            'rule': self._place('rules', layout['rules']),
+            'ep': self._place('endpoints', layout['endpoints'],
+                              create=False),
         }
-        self.svc_dir = os.path.join(self.root, 'svc')
+        self.svc_dir = self._place('svc', layout['svc'], create=False)
+        self.dirs['svc'] = os.path.join(self.svc_dir, 'vips')
         self.svc_rsrc = os.path.join(self.svc_dir, 'resources')
-        os.mkdir(self.apps)
-        os.mkdir(self.dirs['rule'])      # AppEnvironment creates rules_dir
+        for kind in sorted(set(layout.values())):
+            self.count('layout.%s' % kind)
+        if any(kind != 'real' for kind in layout.values()):
+            self.count('layout.cases-with-symlinks')
 
         # owners
         self.gen = [0] * NSLOTS          # current generation of each slot
@@ -442,6 +462,57 @@ class Engine(object):
         self.flags = {}
 
     # ------------------------------------------------------------------
+    def _place(self, name, kind, create=True):
+        """Build directory `name` of the node as `kind` says; returns the
+        configured (unresolved) path.
+
+        real      <root>/<name>
+        link<d>   <root>/<name> -> <root>/vol/<name>.1/../<name>.<d>/<name>
+        under<d>  <root>/mnt.<name>/<name>, <root>/mnt.<name> being a
+                  symlink to a directory d levels below <root>/vol
+        With create=False only the parent exists (the manager makes the
+        directory itself, through the symlinked parent where there is one;
+        for link<d> the relocated directory has to exist)."""
+        given = os.path.join(self.root, name)
+        if kind == 'real':
+            if create:
+                os.mkdir(given)
+            return given
+        depth = int(kind[-1])
+        chain = os.path.join(self.root, 'vol', *[
+            '%s.%d' % (name, level + 1) for level in range(depth)])
+        os.makedirs(chain)
+        if kind.startswith('link'):
+            os.mkdir(os.path.join(chain, name))
+            os.symlink(os.path.join(chain, name), given)
+            return given
+        parent = os.path.join(self.root, 'mnt.' + name)
+        os.symlink(chain, parent)
+        given = os.path.join(parent, name)
+        if create:
+            os.mkdir(given)
+        return given
+
+    def _real(self, path):
+        """realpath, cached (the directories do not move during a case)."""
+        try:
+            return self._rp_cache[path]
+        except KeyError:
+            out = self._rp_cache[path] = os.path.realpath(path)
+            return out
+
+    def _denotes(self, comp, target):
+        """Physical path of the owner file a link target names (the parent
+        directory resolved, the last component kept: a request link is
+        itself a symlink)."""
+        if target is None:
+            return None
+        if not os.path.isabs(target):
+            target = os.path.join(self._real(self.dirs[comp]), target)
+        target = os.path.normpath(target)
+        return os.path.join(self._real(os.path.dirname(target)),
+                            os.path.basename(target))
+
     def close(self):
         for mod, real in self._os_patched:
             mod.os = real
@@ -451,7 +522,7 @@ class Engine(object):
             mod.netdev = netdev
             mod.iptables = iptables
             self._patched = None
-        shutil.rmtree(self.root, ignore_errors=True)
+        shutil.rmtree(self.top, ignore_errors=True)
 
     # ------------------------------------------------------------------
     def owner_of(self, op):
@@ -500,14 +571,17 @@ class Engine(object):
                     % (comp, key, actual[key], expected))
         for key in sorted(expected):
             target = actual[key]
-            want = os.path.join(owner_dir, expected[key])
-            got = None if target is None else os.path.normpath(
-                os.path.join(self.dirs[comp], target))
+            want = os.path.join(self._real(owner_dir), expected[key])
+            got = self._denotes(comp, target)
             if got != want:
+                named = None if target is None else os.path.basename(target)
+                what = hints.get('changed', 'owner-changed') \
+                    if named != expected[key] else 'link-misses-owner'
                 raise Violation(
-                    prefix + hints.get('changed', 'owner-changed'),
-                    '%s entry %r points to %r, model owner is %r'
-                    % (comp, key, target, expected[key]))
+                    prefix + what,
+                    '%s entry %r points to %r (= %r), the owner %r is %r; '
+                    'layout %r' % (comp, key, target, got, expected[key],
+                                   want, self.layout))
 
     def check_all(self, acting, opname, expected, hints=None):
         """Acting component against its new model, the others unchanged."""
@@ -1144,7 +1218,6 @@ class Engine(object):
         impl = self._svc_class()(ext_device='eth0', ext_ip=EXT_IP,
                                  ext_mtu=9000, ext_speed=10000)
         self.svc = impl
-        self.dirs['svc'] = os.path.join(self.svc_dir, 'vips')
         impl.initialize(self.svc_dir)
         expected = dict(self.model['svc'])
         errors0 = self._errors()
